@@ -38,7 +38,7 @@ def run(ck):
         ck.add_tlc(a, "A: <=9 lines, unscoped (model only)")
     ck.notes["legB"] = legb
     ck.cmds.append("tlc C05_A*.cfg C05_MC.tla; vh c05-replay; vh c05-record; tlc C05_Trace.tla")
-    n = 500 if q else 8000
+    n = 572 if q else 9144        # every eighth program is a probe (return out of nested loops); 500 / 8000 random ones as before
     tr = os.path.join(ck.wd, "c05_trace.ndjson")
     s = vlib.vh_json(["c05-record", ck.seed, n, tr], timeout=3400)
     r, k, viol, drift = vlib.trace_validate("C05_Trace", "C05_Trace.cfg", ck.wd, tr, timeout=5000)
